@@ -17,6 +17,7 @@ import (
 	"strings"
 	"sync"
 	"sync/atomic"
+	"syscall"
 	"time"
 )
 
@@ -126,6 +127,8 @@ func runBatch(dir, prop, arg string, jobs []*Job, perCase time.Duration, env []s
 		wdir := filepath.Join(dir, fmt.Sprintf("w%d", n))
 		ctx, cancel := context.WithTimeout(context.Background(), 30*time.Second+time.Duration(len(rest))*perCase)
 		cmd := exec.CommandContext(ctx, os.Args[0], prop, "-out", wdir)
+		// a worker must not outlive this process (bin/check may kill us on its own timeout)
+		cmd.SysProcAttr = &syscall.SysProcAttr{Pdeathsig: syscall.SIGKILL}
 		cmd.Env = append(append(os.Environ(), workerEnv+"="+outPath, workerInEnv+"="+inPath, workerArgEnv+"="+arg), env...)
 		var stderr bytes.Buffer
 		cmd.Stderr = &stderr
